@@ -334,7 +334,7 @@ W3C_DATE_RE = re.compile('''
     )?
     [ \t\n\f\r]*
     $
-''', re.VERBOSE)
+''', re.VERBOSE | re.ASCII)
 
 
 def parse_w3c_date(meta_name, string):
